@@ -185,7 +185,8 @@ class Builder:
         self.objs = {}       # id -> object
 
     def var(self, name):
-        return self.sym.Variable(name=name, scope=self.scope)
+        from loki.types import SymbolAttributes, BasicType
+        return self.sym.Variable(name=name, scope=self.scope, type=SymbolAttributes(BasicType.INTEGER))
 
     def pragma(self, j):
         from loki.frontend.source import Source
@@ -235,7 +236,7 @@ class Builder:
         elif kind == 'KComment':
             n = ir.Comment(text='! c%d' % nid)
         elif kind == 'KOther':
-            n = ir.Intrinsic(text='print *, %d' % nid)
+            n = ir.GenericStmt(text='continue ! %d' % nid)
         else:
             raise ValueError('kind %s is not built programmatically' % kind)
         for nm, v in (('pragma', pre), ('pragma_post', post)):
@@ -283,6 +284,12 @@ def cq_op(o):
     if t == 'attD': return Raw('OAttD')
     if t == 'detD': return Raw('ODetD')
     raise ValueError(o)
+
+
+def cq_ctx(c):
+    if c[0] == 'P': return C('CP', [Raw(k) for k in c[1]], bool(c[2]))
+    if c[0] == 'R': return C('CR', cq_kw(c[1]))
+    return Raw('CD')
 
 
 def flow_ops(flow):
@@ -546,13 +553,24 @@ class FortranGen:
 
 
 def rand_flow(rng, allow_d=True):
+    """(flow, conforming): a conforming flow enters every context in a state covered by its round-trip theorem
+    (at most one region context, at most one dataflow context, pairwise disjoint node_type sets)"""
     cs = []
+    conforming = rng.random() < 0.8
     for _ in range(rng.choice([1, 1, 1, 2, 2, 3])):
         x = rng.random()
-        if x < 0.45: cs.append(['P', rng.choice(NT_CHOICES), rng.random() < 0.75])
-        elif x < 0.8 or not allow_d: cs.append(['R', rng.choice(KW_CHOICES)])
-        else: cs.append(['D'])
-    return cs
+        if x < 0.45: c = ['P', rng.choice(NT_CHOICES), rng.random() < 0.75]
+        elif x < 0.8 or not allow_d: c = ['R', rng.choice(KW_CHOICES)]
+        else: c = ['D']
+        if conforming:
+            if c[0] in ('R', 'D') and any(d[0] == c[0] for d in cs): continue
+            if c[0] == 'P' and any(d[0] == 'P' and set(d[1]) & set(c[1]) for d in cs): continue
+        cs.append(c)
+    ok = True
+    for i, c in enumerate(cs):
+        for d in cs[:i]:
+            if c[0] == d[0] and (c[0] != 'P' or set(c[1]) & set(d[1])): ok = False
+    return cs, ok
 
 
 def rand_ops(rng):
@@ -597,20 +615,21 @@ class C16(Property):
     # ---------------------------------------------------------------------------------------------
     def generate(self, rng, tier):
         quick = tier == 'quick'
-        n_class, n_wild, n_src = (420, 420, 260) if quick else (4000, 4000, 2500)
+        n_class, n_wild, n_src = (220, 220, 150) if quick else (2000, 2000, 1400)
         for i in range(n_class):
             g = TreeGen(rng, 'class', rng.choice([10, 18, 28]))
             unit = g.unit()
-            yield {'kind': 'ptree-flow', 'unit': unit, 'flow': rand_flow(rng), 'raises': rng.random() < 0.4}
+            flow, ok = rand_flow(rng)
+            yield {'kind': 'ptree-flow', 'unit': unit, 'flow': flow, 'raises': rng.random() < 0.4, 'inclass': ok}
         for i in range(n_wild):
             g = TreeGen(rng, 'wild', rng.choice([8, 14, 22]))
             unit = g.unit()
             yield {'kind': 'ptree-ops', 'unit': unit, 'ops': rand_ops(rng)}
         for i in range(n_src):
-            flow = rand_flow(rng)
+            flow, ok = rand_flow(rng)
             has_d = any(c[0] == 'D' for c in flow)
             g = FortranGen(rng, rng.choice([8, 14, 22]), allow_assoc=not has_d)
-            yield {'kind': 'fsrc-flow', 'src': g.routine(), 'flow': flow, 'raises': rng.random() < 0.4}
+            yield {'kind': 'fsrc-flow', 'src': g.routine(), 'flow': flow, 'raises': rng.random() < 0.4, 'inclass': ok}
 
     # ---------------------------------------------------------------------------------------------
     def _unit_object(self, case):
@@ -622,7 +641,7 @@ class C16(Property):
             return r, r
         b = Builder()
         secs = [b.tree(j) for j in case['unit']]
-        return types.SimpleNamespace(spec=secs[0], body=secs[1]), None
+        return types.SimpleNamespace(spec=secs[0], body=secs[1], _builder=b), None   # the builder owns the Scope (weakly referenced by symbols)
 
     def _apply(self, holder, o):
         from loki.ir import (attach_pragmas, detach_pragmas, attach_pragma_regions, detach_pragma_regions)
@@ -719,9 +738,14 @@ class C16(Property):
         if out['error'] is not None:
             # an attach raised while entering: already entered contexts are left again, the failing one is not
             return None
-        t1 = coq(C('chk_ops', [cq_op(o) for o in ent], u, False, [cq_tree(j) for j in out['mid']]))
-        t2 = coq(C('chk_ops', [cq_op(o) for o in ent + ext], u, False, [cq_tree(j) for j in out['fin']]))
-        return '(%s && %s)' % (t1, t2)
+        U = Raw('lv_u')
+        t1 = coq(C('chk_ops', [cq_op(o) for o in ent], U, False, [cq_tree(j) for j in out['mid']]))
+        t2 = coq(C('chk_ops', [cq_op(o) for o in ent + ext], U, False, [cq_tree(j) for j in out['fin']]))
+        t3 = 'true'
+        if case.get('inclass'):
+            # the generators claim that this flow satisfies the hypotheses of C16_nested_contexts_roundtrip
+            t3 = coq(C('flow_in_class', [cq_ctx(c) for c in case['flow']], U))
+        return '(let lv_u := %s in (%s && %s && %s))' % (coq(u), t1, t2, t3)
 
     def show_model(self, case, out):
         u = coq([cq_tree(j) for j in out['init']])
@@ -760,6 +784,8 @@ class C16(Property):
     def search(self, rng, bad_cases):
         # around a disagreement: the same unit through every single context manager, with and without exception
         for c in bad_cases:
+            if 'flow' not in c:
+                continue        # "wild" units are outside the class of the property: never feed them to the oracle
             base = {k: v for k, v in c.items() if k in ('unit', 'src')}
             if not base: continue
             kind = 'ptree-flow' if 'unit' in base else 'fsrc-flow'
@@ -768,14 +794,15 @@ class C16(Property):
                     yield dict(base, kind=kind, flow=[['P', nt, pf]], raises=False)
             for kw in (None, 'acc', 'loki'):
                 yield dict(base, kind=kind, flow=[['R', kw]], raises=True)
-            yield dict(base, kind=kind, flow=[['D']], raises=False)
+            if 'associate' not in base.get('src', ''):
+                yield dict(base, kind=kind, flow=[['D']], raises=False)
             yield dict(base, kind=kind, flow=[['R', None], ['P', ['KLoop'], True]], raises=False)
         # and fresh class units
         for i in range(150):
             g = TreeGen(rng, 'class', 16)
-            yield {'kind': 'ptree-flow', 'unit': g.unit(), 'flow': rand_flow(rng), 'raises': rng.random() < 0.5}
+            yield {'kind': 'ptree-flow', 'unit': g.unit(), 'flow': rand_flow(rng)[0], 'raises': rng.random() < 0.5}
         for i in range(100):
-            flow = rand_flow(rng)
+            flow = rand_flow(rng)[0]
             g = FortranGen(rng, 14, allow_assoc=not any(c[0] == 'D' for c in flow))
             yield {'kind': 'fsrc-flow', 'src': g.routine(), 'flow': flow, 'raises': rng.random() < 0.5}
 
